@@ -254,6 +254,8 @@ def run(rep, crate, cfg):
                       "%s: the loop over the bit-packed tail (%s, %d access(es) peeled in front) visits exactly ceil(nd/64) words per row "
                       "for all 64 residues of nd = 64q + r" % (k.split("::")[-1], shape, P),
                       {"problems": {m: rs[:8] for m, rs in list(bad.items())[:4]}} if bad else None, cfg)
-    rep.floor(R, proved, 3, "loops over the packed dense tail with a trip-count proof (row scan, row addition, resize copy)", cfg)
+    # floor: the row scan (the only loop whose bound is a column count) must be found and proved; row addition and the resize
+    # copy may legitimately be written without a loop of their own (slice helpers, chunks), so they are proved when present
+    rep.floor(R, proved, 1, "loops over the packed dense tail with a trip-count proof (row scan; row addition and resize copy when they are loops)", cfg)
     if unmodelled:
         rep.note("C07-R5: loops over the packed tail without an affine trip count (not decided): " + "; ".join(unmodelled))
